@@ -456,6 +456,8 @@ var specs = []spec{
 		[]string{"db.HashMap", "db.LastBlockHeight", "db.LastBlockHash", "db.undo_dir_created", "changes.UndoData"}, protoCalls, false},
 	{"lib/utxo/unspent_db.go", "UnspentDB", "UndoBlockTxs", "undoBlockTxs",
 		[]string{"db.HashMap", "db.LastBlockHeight", "db.LastBlockHash", "db.DeletedRecords"}, protoCalls, false},
+	{"lib/utxo/unspent_db.go", "UnspentDB", "PurgeUnspendable", "purgeUnspendable",
+		[]string{"db.HashMap", "db.LastBlockHeight", "db.LastBlockHash"}, protoCalls, false},
 	{"lib/utxo/unspent_db.go", "UnspentDB", "commit", "commit",
 		[]string{"db.HashMap", "changes.DeledTxs", "changes.AddList", "thelist"}, protoCalls, false},
 	{"lib/utxo/unspent_db.go", "UnspentDB", "del", "del", []string{"db.HashMap", "db.DeletedRecords"}, protoCalls, false},
